@@ -116,3 +116,21 @@ REG.contract(
     props=["C07"],
     note="in-place difference equals set-theoretic difference; S - S is empty",
 )
+
+REG.contract(
+    "dns.set.Set.update",
+    params={"self": SET, "other": SET},
+    cases=[_DISTINCT],
+    raises=[],
+    modifies={"self.items": T.map_of(T.int, T.none)},
+    loops={0: loop(index="i0", invariant=[
+        "all(k in self.items for k in old_self.items)",
+        "all(other_keys[j] in self.items for j in range(i0))",
+        "all((k in old_self.items) or (k in other.items) for k in self.items)",
+    ], modifies={"self.items": T.map_of(T.int, T.none)})},
+    ghost_entry={"other_keys": "other.items.keys()"},
+    ensures=["all(k in self.items for k in old_self.items)", "all(k in self.items for k in other.items)",
+             "all((k in old_self.items) or (k in other.items) for k in self.items)"],
+    props=["C07"],
+    note="update(other) with another set: the result is the set-theoretic union (iteration is over the other set's items)",
+)
